@@ -18,6 +18,7 @@ import (
 	"io"
 	"os"
 	"runtime"
+	"runtime/debug"
 	"sort"
 	"strings"
 	"sync"
@@ -274,6 +275,98 @@ type Obs struct {
 	Hang    bool     `json:"hang"`
 	Early   bool     `json:"early"`   // Parse returned while a read was still blocked
 	Unknown []string `json:"unknown"` // paths asked of the reader that are no file
+	Widths  []int    `json:"widths"`  // number of blocked reads at each choice (for the enumeration of all schedules)
+	Crash   string   `json:"crash"`   // the process running Parse died (panic site)
+	Skipped bool     `json:"skipped"` // not run: too many crashes / hangs before
+}
+
+// Chooser: which blocked read is released next (serialisable: every case runs in a worker subprocess so
+// that a crash or runaway recursion of the code under test is an observation, not the end of the check)
+type Chooser struct {
+	Kind string `json:"kind"` // oldest | newest | highest | random | list | prefix
+	Seed uint64 `json:"seed,omitempty"`
+	List []int  `json:"list,omitempty"`
+}
+
+func (ch Chooser) fn() func(blocked []int, step int) int {
+	switch ch.Kind {
+	case "newest":
+		return func(b []int, _ int) int { return b[len(b)-1] }
+	case "highest":
+		return func(b []int, _ int) int {
+			m := b[0]
+			for _, x := range b {
+				if x > m {
+					m = x
+				}
+			}
+			return m
+		}
+	case "random":
+		rng := common.NewRng(ch.Seed)
+		return func(b []int, _ int) int { return b[rng.Intn(len(b))] }
+	case "list":
+		return listChooser(ch.List)
+	case "prefix":
+		return func(b []int, step int) int {
+			sorted := append([]int{}, b...)
+			sort.Ints(sorted)
+			if step < len(ch.List) {
+				return sorted[ch.List[step]%len(sorted)]
+			}
+			return sorted[0]
+		}
+	}
+	return func(b []int, _ int) int { return b[0] }
+}
+
+type Job struct {
+	Spec   Spec    `json:"spec"`
+	Mode   string  `json:"mode"` // lock | free
+	Full   bool    `json:"full"`
+	Ch     Chooser `json:"ch"`
+	Delays []int   `json:"delays,omitempty"`
+	Procs  int     `json:"procs,omitempty"`
+}
+
+func serve(line []byte) interface{} {
+	var j Job
+	if err := json.Unmarshal(line, &j); err != nil {
+		return Obs{Err: "bad job: " + err.Error()}
+	}
+	if j.Mode == "free" {
+		return freerun(&j.Spec, j.Full, j.Delays, j.Procs)
+	}
+	return lockstep(&j.Spec, j.Full, j.Ch.fn())
+}
+
+var worker *common.Worker
+
+// after a few crashes / hangs the remaining cases are skipped: the failures are recorded, and every
+// further case would only wait for its deadline
+var nBad int
+
+const maxBad = 4
+
+func runJob(j Job) Obs {
+	if nBad >= maxBad {
+		return Obs{Full: j.Full, Skipped: true}
+	}
+	var o Obs
+	died, timedOut, stderr := worker.Call(j, &o, 40*time.Second)
+	if died {
+		nBad++
+		return Obs{Full: j.Full, Crash: common.PanicSite(stderr)}
+	}
+	if timedOut {
+		nBad++
+		return Obs{Full: j.Full, Hang: true}
+	}
+	if o.Hang {
+		nBad++
+		worker.Close() // goroutines of the hung Parse are still there: start a fresh process for the next case
+	}
+	return o
 }
 
 var stdoutMu sync.Mutex
@@ -416,6 +509,7 @@ func lockstep(s *Spec, full bool, choose func(blocked []int, step int) int) Obs 
 					arr = append(arr, i)
 				}
 			}
+			o.Widths = append(o.Widths, len(arr))
 			pick := choose(arr, step)
 			ch := rd.waiting[pick]
 			delete(rd.waiting, pick)
@@ -688,6 +782,14 @@ func names(s *Spec, l []int) string {
 // judge one observation; returns true when the result equals the specification
 func judge(c *common.Ctx, s *Spec, v verdict, o Obs, rp Replay) bool {
 	where := fmt.Sprintf("root %s, --max-import-depth %d, %s", s.path(0), s.Max, rp.Mode)
+	if o.Skipped {
+		c.Hist("skipped-after-crashes")
+		return true
+	}
+	if o.Crash != "" {
+		c.Fail("crash:"+o.Crash, "the process died while Parse was running ("+where+"): "+o.Crash, rp)
+		return false
+	}
 	if o.Hang {
 		c.Fail("hang", "Parse did not return within the deadline ("+where+")", rp)
 		return false
@@ -960,7 +1062,7 @@ func gGraph(s *Spec) string {
 	return "[" + strings.Join(it, ";") + "]"
 }
 func representable(o Obs) bool {
-	if o.Hang || o.Early || o.Err != "" {
+	if o.Hang || o.Early || o.Err != "" || o.Crash != "" || o.Skipped {
 		return false
 	}
 	for _, f := range o.Final {
@@ -1016,8 +1118,12 @@ func listChooser(rel []int) func([]int, int) int {
 	}
 }
 
-func (r *runner) lock(s *Spec, v verdict, full bool, choose func([]int, int) int, label string) (Obs, bool) {
-	o := lockstep(s, full, choose)
+func (r *runner) lock(s *Spec, v verdict, full bool, ch Chooser, label string) (Obs, bool) {
+	o := runJob(Job{Spec: *s, Mode: "lock", Full: full, Ch: ch})
+	if o.Skipped {
+		r.c.Hist("skipped-after-crashes")
+		return o, true
+	}
 	rel := releasesOf(o)
 	rp := mkReplay(s, "lock", rel, nil, 0)
 	ok := judge(r.c, s, v, o, rp)
@@ -1037,7 +1143,11 @@ func (r *runner) free(s *Spec, v verdict) (Obs, bool) {
 		delays[i] = r.c.Rng.Intn(4) * r.c.Rng.Intn(120)
 	}
 	procs := []int{1, 2, 4, 16}[r.c.Rng.Intn(4)]
-	o := freerun(s, true, delays, procs)
+	o := runJob(Job{Spec: *s, Mode: "free", Full: true, Delays: delays, Procs: procs})
+	if o.Skipped {
+		r.c.Hist("skipped-after-crashes")
+		return o, true
+	}
 	rp := mkReplay(s, "free", nil, delays, procs)
 	ok := judge(r.c, s, v, o, rp)
 	r.c.Count(sig(s)+"|free|"+gInts(delays)+fmt.Sprint(procs), v.shared || v.cuts)
@@ -1093,31 +1203,25 @@ func (r *runner) schedules(s *Spec, nRandom int) {
 			results = append(results, o.Final)
 		}
 	}
-	o, _ := r.lock(s, v, true, func(b []int, _ int) int { return b[0] }, "oldest-first")
+	o, _ := r.lock(s, v, true, Chooser{Kind: "oldest"}, "oldest-first")
 	note(o)
 	if len(o.Trace) > 1 {
-		o, _ = r.lock(s, v, false, func(b []int, _ int) int { return b[len(b)-1] }, "newest-first")
+		o, _ = r.lock(s, v, false, Chooser{Kind: "newest"}, "newest-first")
 		note(o)
-		o, _ = r.lock(s, v, false, func(b []int, _ int) int {
-			m := b[0]
-			for _, x := range b {
-				if x > m {
-					m = x
-				}
-			}
-			return m
-		}, "highest-id-first")
+		o, _ = r.lock(s, v, false, Chooser{Kind: "highest"}, "highest-id-first")
 		note(o)
 		for k := 0; k < nRandom; k++ {
-			rng := r.c.Rng.Fork()
-			o, _ = r.lock(s, v, k == 0, func(b []int, _ int) int { return b[rng.Intn(len(b))] }, "random")
+			o, _ = r.lock(s, v, k == 0, Chooser{Kind: "random", Seed: r.c.Rng.Uint64()}, "random")
 			note(o)
 		}
 	}
 	o, _ = r.free(s, v)
 	note(o)
 	// identical under every schedule tried
-	for _, res := range results[1:] {
+	for i, res := range results {
+		if i == 0 {
+			continue
+		}
 		if !eqInts(res, results[0]) && !(s.Max > 0 && v.multiDepth) {
 			r.c.Fail("schedule-dependent", fmt.Sprintf("two completion orders of the reads give %s and %s", names(s, results[0]), names(s, res)), mkReplay(s, "lock", nil, nil, 0))
 			break
@@ -1133,16 +1237,8 @@ func (r *runner) allSchedules(s *Spec, limit int) int {
 	count := 0
 	var first []int
 	for {
-		var widths []int
-		o, _ := r.lock(s, v, count%6 == 0, func(b []int, step int) int {
-			sorted := append([]int{}, b...)
-			sort.Ints(sorted)
-			widths = append(widths, len(sorted))
-			if step < len(prefix) {
-				return sorted[prefix[step]%len(sorted)]
-			}
-			return sorted[0]
-		}, "enumerated")
+		o, _ := r.lock(s, v, count%6 == 0, Chooser{Kind: "prefix", List: append([]int{}, prefix...)}, "enumerated")
+		widths := o.Widths
 		count++
 		if representable(o) {
 			if first == nil {
@@ -1174,6 +1270,13 @@ func (r *runner) allSchedules(s *Spec, limit int) int {
 
 func main() {
 	logrus.SetOutput(io.Discard)
+	if common.IsWorker() {
+		debug.SetMaxStack(64 << 20) // a runaway recursion ends quickly
+		common.ServeWorker(serve)
+		return
+	}
+	worker = common.NewWorker()
+	defer worker.Close()
 	c := common.Setup("C05")
 	defer c.Finish()
 	c.Res.Rule = "each case = (import graph with directories and import spellings, --max-import-depth, one completion order of the file reads driven through the real parse.Parser.Parse by a gate reader, or one free run with per-file read delays); distinct = distinct (input, release order); non-trivial = some file is reached by more than one import (diamond, cycle, self-import, repeated import) or the depth limit excludes a reachable file"
@@ -1194,12 +1297,12 @@ Local Open Scope N_scope.`
 		v := analyse(s)
 		var o Obs
 		if rp.Mode == "free" {
-			o = freerun(s, true, rp.Delays, rp.Procs)
+			o = runJob(Job{Spec: *s, Mode: "free", Full: true, Delays: rp.Delays, Procs: rp.Procs})
 			judge(c, s, v, o, rp)
 		} else if rp.Releases == nil {
 			r.schedules(s, 6)
 		} else {
-			o = lockstep(s, true, listChooser(rp.Releases))
+			o = runJob(Job{Spec: *s, Mode: "lock", Full: true, Ch: Chooser{Kind: "list", List: rp.Releases}})
 			judge(c, s, v, o, rp)
 		}
 		c.Count(sig(s), true)
@@ -1230,7 +1333,7 @@ Local Open Scope N_scope.`
 
 	nRand, nUnequal, nLayered, nSched, maxN := 70, 25, 25, 3, 8
 	if c.Thorough() {
-		nRand, nUnequal, nLayered, nSched, maxN = 1500, 400, 400, 5, 10
+		nRand, nUnequal, nLayered, nSched, maxN = 1100, 300, 300, 5, 10
 	}
 	if c.Search {
 		nRand, nUnequal, nLayered, nSched = nRand*4, nUnequal*3, nLayered*3, nSched+3
